@@ -329,20 +329,28 @@ theorem parseListItems_ok {fuel : Nat} (ih : ExprSpecs pf AP S fuel) (st : PStat
     PSafe AP S (Parser.parseListItems pf (fuel + 1)) st (EPost S st 0) := by
   unfold Parser.parseListItems
   apply PSafe.bind
-  apply (ih.parseExpr _ st hi (by omega)).mono
-  intro e st1 ⟨hi1, hm1⟩
-  apply PSafe.bind
-  apply next_safe hz hi1
-  intro nxt st2 hi2 hs2 hpc2 ht2 hm2 _
-  try dsimp only
+  apply peek_safe hz hi
+  intro pk st0 hi0 hs0 hm0 hd0 _
   split
-  · exact PSafe.pure ⟨hi2, by omega⟩
-  split
-  · exact unexpected_safe hi2 hs2
   · apply PSafe.bind
-    apply (ih.parseListItems st2 hi2 (by omega)).mono
-    intro r st3 ⟨hi3, hm3⟩
-    exact PSafe.pure ⟨hi3, by omega⟩
+    apply next_safe hz hi0
+    intro t st1 hi1 hs1 _ _ hm1 _
+    exact PSafe.pure ⟨hi1, by omega⟩
+  · apply PSafe.bind
+    apply (ih.parseExpr _ st0 hi0 (by omega)).mono
+    intro e st1 ⟨hi1, hm1⟩
+    apply PSafe.bind
+    apply next_safe hz hi1
+    intro nxt st2 hi2 hs2 hpc2 ht2 hm2 _
+    try dsimp only
+    split
+    · exact PSafe.pure ⟨hi2, by omega⟩
+    split
+    · exact unexpected_safe hi2 hs2
+    · apply PSafe.bind
+      apply (ih.parseListItems st2 hi2 (by omega)).mono
+      intro r st3 ⟨hi3, hm3⟩
+      exact PSafe.pure ⟨hi3, by omega⟩
 
 theorem parseMapItems_ok {fuel : Nat} (ih : ExprSpecs pf AP S fuel) (key : Bytes) (items : MapItems) (st : PState)
     (hi : Inv S st) (hf : 8 * mu st + 12 ≤ fuel + 1) :
@@ -361,16 +369,24 @@ theorem parseMapItems_ok {fuel : Nat} (ih : ExprSpecs pf AP S fuel) (key : Bytes
   split
   · exact unexpected_safe hi2 hs2
   · apply PSafe.bind
-    apply expect_safe hz hi2
-    intro tok st3 hi3 hs3 _ _ hm3 _
+    apply peek_safe hz hi2
+    intro pk st2' hi2' hs2' hm2' hd2' _
     split
     · apply PSafe.bind
-      apply expect_safe hz hi3
-      intro c st4 hi4 hs4 _ _ hm4 _
-      apply (ih.parseMapItems _ _ st4 hi4 (by omega)).mono
-      intro r st5 ⟨hi5, hm5⟩
-      exact ⟨hi5, by omega⟩
-    · exact errorf_safe hi3
+      apply next_safe hz hi2'
+      intro t st3 hi3 hs3 _ _ hm3 _
+      exact PSafe.pure ⟨hi3, by omega⟩
+    · apply PSafe.bind
+      apply expect_safe hz hi2'
+      intro tok st3 hi3 hs3 _ _ hm3 _
+      split
+      · apply PSafe.bind
+        apply expect_safe hz hi3
+        intro c st4 hi4 hs4 _ _ hm4 _
+        apply (ih.parseMapItems _ _ st4 hi4 (by omega)).mono
+        intro r st5 ⟨hi5, hm5⟩
+        exact ⟨hi5, by omega⟩
+      · exact errorf_safe hi3
 
 theorem parseTernary_ok {fuel : Nat} (ih : ExprSpecs pf AP S fuel) (cond : Expr) (st : PState)
     (hi : Inv S st) (hf : 8 * mu st + 12 ≤ fuel + 1) :
@@ -385,18 +401,7 @@ theorem parseTernary_ok {fuel : Nat} (ih : ExprSpecs pf AP S fuel) (cond : Expr)
   apply PSafe.bind
   apply (ih.parseExpr _ st2 hi2 (by omega)).mono
   intro n2 st3 ⟨hi3, hm3⟩
-  try dsimp only
-  apply PSafe.bind
-  apply peek_safe hz hi3
-  intro pk st4 hi4 hs4 hm4 hd4 _
-  split
-  · apply PSafe.bind
-    apply next_safe hz hi4
-    intro t st5 hi5 hs5 _ _ hm5 _
-    apply (ih.parseTernary _ st5 hi5 (by omega)).mono
-    intro r st6 ⟨hi6, hm6⟩
-    exact ⟨hi6, by omega⟩
-  · exact PSafe.pure ⟨hi4, by omega⟩
+  exact PSafe.pure ⟨hi3, by omega⟩
 
 theorem newGlobalNode_ok {fuel : Nat} (ih : ExprSpecs pf AP S fuel) (pos : Nat) (name : Bytes) (nxt : Item)
     (st : PState) (hs : S nxt) (hi : Inv S st) (hpc : st.peekCount ≤ 1) (ht : top st = nxt)
